@@ -57,6 +57,10 @@ func simGenFaults(t *rapid.T, label string, classes []string, max int) []simFaul
 			}
 		}
 		out = append(out, f)
+		// a retry of the failed operation (if the server makes one) fails as well
+		if (f.Mode == simErrDeadline || f.Mode == simErrNoApply || f.Mode == simHang) && f.Class != "tile" && f.Class != "tilebatch" && rapid.IntRange(0, 2).Draw(t, label+"RetryFails") == 1 {
+			out = append(out, simFault{Class: f.Class, Ordinal: f.Ordinal + 1, Mode: simErrNoApply})
+		}
 	}
 	return out
 }
